@@ -1,3 +1,12 @@
 fn main() {
+    let args: Vec<String> = std::env::args().collect();
+    if args.len() == 3 && args[1] == "packet-seeds" {
+        // seed corpus of the ics20_packet_bytes fuzz target
+        std::fs::create_dir_all(&args[2]).expect("mkdir");
+        for (i, s) in fam_ics20::raw_packet_seeds().into_iter().enumerate() {
+            std::fs::write(format!("{}/packet-{i}.json", args[2]), s).expect("write");
+        }
+        return;
+    }
     vcore::runner::main_for(fam_ics20::Ics20Family)
 }
